@@ -775,8 +775,9 @@ def chunks_equal(x, ca, cb):
 def ck_equal(x, a, b):
     if isinstance(a, CkVal) and isinstance(b, CkVal):
         return chunks_equal(x, a.chunks, b.chunks)
-    # checksum field of a corrupted header (arbitrary 64-bit value) vs a real payload: may or may not match
-    return x.flip('corrupt_checksum_matches')
+    # checksum field of a damaged header (arbitrary 64-bit value) vs the checksum of real bytes: assumed never equal
+    # (no FNV collision / no adversarially computed checksum) -- stated in the C11 evidence
+    return False
 
 
 # ============================================================================ world / process
